@@ -21,6 +21,7 @@ func checkC01(c *Ctx, r *Report) {
 	c01R5(c, r)
 	c01R6(c, r)
 	c01R7(c, r)
+	c01R8(c, r)
 }
 
 // sideStructs are the hand-written wire-format structs with their packers.
@@ -88,6 +89,9 @@ func (c *Ctx) checkPackSeq(r *Report, rule, tname, fname string, kinds []string,
 				names := fieldNames(cc.Fields)
 				if names != "GatewayAddr,"+wf[i].Name+",GatewayType" {
 					problems = append(problems, fmt.Sprintf("%s: gateway codec reads fields [%s], want [GatewayAddr,%s,GatewayType]", where, names, wf[i].Name))
+				}
+				if want := gatewaySelectorMask(wf[i].Tag); cc.SelMask != want {
+					problems = append(problems, fmt.Sprintf("%s: gateway selector is passed with mask %s, the RFC layout selects on %s", where, maskStr(cc.SelMask), maskStr(want)))
 				}
 			} else if len(cc.Fields) != 1 || cc.Fields[0] != wf[i].Var {
 				problems = append(problems, fmt.Sprintf("%s: codec call reads field [%s]", where, fieldNames(cc.Fields)))
@@ -164,9 +168,10 @@ func (c *Ctx) checkUnpackSeq(r *Report, rule, tname, fname string, kinds []strin
 				if fieldNames(cc.Fields) != "GatewayAddr,"+wf[i].Name {
 					problems = append(problems, fmt.Sprintf("%s: gateway codec stores into [%s]", where, fieldNames(cc.Fields)))
 				}
-				p, ok := c.fieldPath(cc.EndExpr, c.recvObj(fd))
-				if cc.EndExpr == nil || !ok || p != "GatewayType" {
+				if cc.SelField == nil || cc.SelField.Name() != "GatewayType" {
 					problems = append(problems, fmt.Sprintf("%s: gateway selector argument is not rr.GatewayType", where))
+				} else if want := gatewaySelectorMask(wf[i].Tag); cc.SelMask != want {
+					problems = append(problems, fmt.Sprintf("%s: gateway selector is passed with mask %s, the RFC layout selects on %s", where, maskStr(cc.SelMask), maskStr(want)))
 				}
 			} else {
 				if len(cc.Fields) != 1 || cc.Fields[0] != wf[i].Var {
@@ -210,9 +215,18 @@ func (c *Ctx) checkUnpackSeq(r *Report, rule, tname, fname string, kinds []strin
 	}
 }
 
-func c01R2(c *Ctx, r *Report) {}
-func c01R3(c *Ctx, r *Report) {}
-func c01R4(c *Ctx, r *Report) {}
-func c01R5(c *Ctx, r *Report) {}
-func c01R6(c *Ctx, r *Report) {}
-func c01R7(c *Ctx, r *Report) {}
+
+// gatewaySelectorMask: RFC 8777 s.4.2: AMTRELAY's type octet is D(1 bit)|type(7 bits); RFC 4025: IPSECKEY's is the whole octet.
+func gatewaySelectorMask(tag string) int64 {
+	if tag == "amtrelayhost" {
+		return 0x7f
+	}
+	return -1
+}
+
+func maskStr(m int64) string {
+	if m < 0 {
+		return "the whole octet"
+	}
+	return fmt.Sprintf("octet & %#x", m)
+}
